@@ -20,6 +20,7 @@ use emit_file::verif::{VFile, VFilesystem};
 pub const NF: usize = 4;
 pub const CAP: usize = 16;
 pub const NLIST: usize = 3;
+pub const NBUF: usize = 16;
 
 pub const K_ERR: u8 = 0;
 pub const K_SHORT: u8 = 1;
@@ -50,6 +51,9 @@ pub struct FsState {
     /// what `read_dir_files` lists (full paths); independent of `names` so that listings can
     /// contain foreign files
     pub listing: [Option<&'static str>; NLIST],
+    /// one more listed path with symbolic content: `buf[..buf_len]` (listed first; `buf_len == 0`: none)
+    pub buf: [u8; NBUF],
+    pub buf_len: usize,
     // fault plan
     pub calls: usize,
     pub fault_at: usize,
@@ -76,6 +80,8 @@ impl FsState {
             synced: [0; NF],
             entry_synced: [false; NF],
             listing: [None; NLIST],
+            buf: [0; NBUF],
+            buf_len: 0,
             calls: 0,
             fault_at: NO_FAULT,
             fault_kind: K_ERR,
@@ -338,8 +344,7 @@ impl VFilesystem for HFs {
         log(OP_READ_DIR, NF);
         match tick() {
             None => {
-                let l = st().listing;
-                Ok(Box::new(l.into_iter().flatten().map(PathBuf::from)))
+                Ok(Box::new(ListIter { i: 0 }))
             }
             Some(_) => Err(err()),
         }
@@ -401,6 +406,34 @@ impl VFilesystem for HFs {
     }
 }
 
+/// Iterator over `buf` (if any) and then the present entries of `listing`. Which entries are present is
+/// concrete in every harness, so the position stays concrete and `read`'s loop has a concrete trip count.
+pub struct ListIter {
+    i: usize,
+}
+
+impl Iterator for ListIter {
+    type Item = PathBuf;
+    fn next(&mut self) -> Option<PathBuf> {
+        let s = st();
+        if self.i == 0 {
+            self.i = 1;
+            if s.buf_len > 0 {
+                let b: &'static [u8] = &st().buf[..s.buf_len];
+                return Some(PathBuf::from(unsafe { core::str::from_utf8_unchecked(b) }));
+            }
+        }
+        while self.i <= NLIST {
+            let k = self.i - 1;
+            self.i += 1;
+            if let Some(p) = s.listing[k] {
+                return Some(PathBuf::from(p));
+            }
+        }
+        None
+    }
+}
+
 /// Install a single-fault plan of the given kind: symbolic fault index < `n_calls`, or no fault at all.
 #[cfg(kani)]
 pub fn sym_fault(kind: u8, n_calls: usize) {
@@ -412,4 +445,61 @@ pub fn sym_fault(kind: u8, n_calls: usize) {
     let j: usize = kani::any();
     kani::assume(j >= 1 && j <= 2);
     s.fault_j = j;
+}
+
+// -------------------------------------------------------------------------------------------------
+// Stand-ins for two std path functions (Kani stubs, used where named in the harness attributes).
+// `Path::file_name` goes through `Components` (prefix parsing, `.`/`..` handling, backwards scanning) and
+// `OsStr::to_str` through `run_utf8_validation`; over heap-allocated `PathBuf`s neither leaves symbolic
+// execution within the budget (measured: > 15 min for one 13-byte listing entry).
+
+/// `Path::file_name` for the paths the harness filesystem lists: `d/<name>` with a non-empty `name` that
+/// contains no `/` and does not start with `.` (all asserted): the bytes after `d/`.
+pub fn stub_file_name(p: &Path) -> Option<&std::ffi::OsStr> {
+    let b = p.as_os_str().as_encoded_bytes();
+    assert!(b.len() > 2 && b[0] == b'd' && b[1] == b'/', "harness paths are d/<name>");
+    let mut i = 2;
+    while i < b.len() {
+        assert!(b[i] != b'/', "harness file names contain no separator");
+        i += 1;
+    }
+    assert!(b[2] != b'.', "harness file names do not start with a dot");
+    Some(unsafe { std::ffi::OsStr::from_encoded_bytes_unchecked(&b[2..]) })
+}
+
+/// `OsStr::to_str` for ASCII names (asserted), skipping the UTF-8 validation loop.
+pub fn stub_to_str(s: &std::ffi::OsStr) -> Option<&str> {
+    let b = s.as_encoded_bytes();
+    let mut i = 0;
+    while i < b.len() {
+        assert!(b[i] < 0x80, "harness file names are ASCII");
+        i += 1;
+    }
+    Some(unsafe { core::str::from_utf8_unchecked(b) })
+}
+
+/// `core::slice::memchr::{memchr, memrchr}` (what `str::split(char)` / `rsplit(char)` search with): std's
+/// versions read a `usize` word at a time after aligning the pointer, which CBMC has to treat as symbolic
+/// pointer arithmetic (measured: 41 M clauses / out of memory for one 12-byte name). Contract: index of the
+/// first / last occurrence of the byte.
+pub fn stub_memchr(x: u8, text: &[u8]) -> Option<usize> {
+    let mut i = 0;
+    while i < text.len() {
+        if text[i] == x {
+            return Some(i);
+        }
+        i += 1;
+    }
+    None
+}
+
+pub fn stub_memrchr(x: u8, text: &[u8]) -> Option<usize> {
+    let mut i = text.len();
+    while i > 0 {
+        i -= 1;
+        if text[i] == x {
+            return Some(i);
+        }
+    }
+    None
 }
